@@ -175,6 +175,8 @@ pub(crate) const FUNC_TABLE: FuncTable = FuncTable {
 
 fn func_random(ctx: &EvalContext, args: &[Expr]) -> Result<i64, ExprError> {
     let max = args[0].eval(ctx)?;
+    #[cfg(feature = "verif-hooks")]
+    crate::verif_hooks::log(crate::verif_hooks::DrawEvent::Bound(max));
     Ok(ctx.random(1..max))
 }
 
@@ -217,6 +219,14 @@ impl Expr {
                         entry.number_of_args,
                         args.len()
                     );
+                }
+                #[cfg(feature = "verif-hooks")]
+                if name == "random" {
+                    let result = (entry.f)(ctx, args);
+                    if let Ok(value) = &result {
+                        crate::verif_hooks::log(crate::verif_hooks::DrawEvent::Value(*value));
+                    }
+                    return result;
                 }
                 (entry.f)(ctx, args)
             }
